@@ -170,8 +170,11 @@ def main(argv=None):
         "violations": len(violations),
     }
     if not args.replay:
-        os.makedirs(os.path.join(E.VERIF, "evidence"), exist_ok=True)
-        evpath = os.path.join(E.VERIF, "evidence", prop + ".json")
+        evdir = os.path.join(E.VERIF, "evidence")
+        if E.speckit_root() != "/repo":   # mutation self-test against a scratch copy: keep real evidence
+            evdir = os.path.join(E.CACHE, "evidence-selftest")
+        os.makedirs(evdir, exist_ok=True)
+        evpath = os.path.join(evdir, prop + ".json")
         with open(evpath, "w") as fh:
             json.dump(evidence, fh, indent=1, allow_nan=False, default=str)
         err = _schema_validate(json.load(open(evpath)))
